@@ -730,11 +730,11 @@ pub fn def() -> PropDef {
         assumptions: &["for genuinely identical ingested rows any multiplicity between 1 and the ingested one is accepted", "DataFusion's evaluator is the trusted reference for the end-to-end part"],
         subs: || {
             vec![
-                Box::new(Sub::<RouteCase> { name: "routing", cases: |t| t.scale(5_000, 6), strategy: |_| (route_case(2), prop_oneof![3 => Just(0u8), 1 => Just(1u8), 1 => Just(2u8)]).prop_map(|(mut r, s)| { r.sp_sel = s; r }).boxed(), exec: exec_route }),
+                Box::new(Sub::<RouteCase> { name: "routing", cases: |t| t.scale(10_000, 5), strategy: |_| (route_case(2), prop_oneof![3 => Just(0u8), 1 => Just(1u8), 1 => Just(2u8)]).prop_map(|(mut r, s)| { r.sp_sel = s; r }).boxed(), exec: exec_route }),
                 Box::new(Sub::<E2eCase> { name: "e2e", cases: |t| t.scale(2_000, 5), strategy: |_| (route_case(1), prop::collection::vec(0u8..6, 1..4), prop_oneof![3 => Just(0u8), 1 => Just(1u8), 1 => Just(2u8)]).prop_map(|(mut route, queries, s)| { route.sp_sel = s; E2eCase { route, queries } }).boxed(), exec: exec_e2e }),
                 Box::new(Sub::<LifeCase> {
                     name: "lifecycle",
-                    cases: |t| t.scale(1_500, 5),
+                    cases: |t| t.scale(2_500, 5),
                     strategy: |_| {
                         let sb = || prop::collection::vec(srow(), 1..6).prop_map(|rows| SBatch { rows, ts_type: 0 });
                         (0u8..2, 0u8..8, prop::collection::vec(sb(), 1..4), prop::collection::vec(sb(), 0..3), prop::collection::vec(sb(), 0..3), prop::collection::vec(0u8..6, 1..4), prop_oneof![3 => Just(0u8), 1 => Just(1u8), 1 => Just(2u8)]).prop_map(|(backend, flush_rows, history, dual, late, queries, sp_sel)| LifeCase { backend, flush_rows, history, dual, late, queries, sp_sel }).boxed()
